@@ -10,6 +10,7 @@ CONSTANTS
   MaxItems = 0
   Addrs = {"none"}
   Grows = {1}
+  Lates = FALSE
   NopKinds = {"1", "4"}
   VariantSet = "align"
   Rotate = 1
